@@ -440,44 +440,40 @@ Definition drop_dest (fl : flagmap) (k : dropkind) (addr net : N) (d : dest)
                                c_paths := elig_list d' |}, gone)
       end.
 
-(* statistics and counter effect of removing [gone] from one destination *)
-Definition drop_account (addr : N) (rest gone : list entry) (st : N * N * bool) : N * N * bool :=
+(* statistics effect of removing [gone] from one destination whose remaining
+   entries are [rest]: received goes down when the peer's last path for the
+   prefix is gone, accepted once per removed unfiltered path *)
+Definition drop_account (addr : N) (st : N * N * bool) (r : list entry * list entry) : N * N * bool :=
   let '(rcv, acc, bad) := st in
-  let still := existsb (from_addr addr) rest in
-  let '(rcv1, b1) := if still then (rcv, false) else dec_stat rcv in
-  fold_left (fun '(r, a, b) e => if e_filtered e then (r, a, b)
-                                 else let '(a', b') := dec_stat a in (r, a', b || b'))
-            gone (rcv1, acc, bad || b1).
-
-Fixpoint drop_walk (fl : flagmap) (k : dropkind) (addr : N) (ctr : option N)
-         (ds : list (N * dest)) (acc : list (N * dest) * list change * list N * (N * N * bool) * N)
-  : list (N * dest) * list change * list N * (N * N * bool) * N :=
-  match ds with
-  | [] => acc
-  | (net, d) :: r =>
-      let '(kept, chs, freed, st, cdec) := acc in
-      let '(od, oc, gone) := drop_dest fl k addr net d in
-      let rest := match od with Some d' => d_entries d' | None => [] end in
-      let st' := match gone with [] => st | _ => drop_account addr rest gone st end in
-      let cdec' := match gone with
-                   | [] => cdec
-                   | _ => if existsb (from_addr addr) rest then cdec else cdec + 1
-                   end in
-      drop_walk fl k addr ctr r
-        (match od with Some d' => kept ++ [(net, d')] | None => kept end,
-         match oc with Some c => chs ++ [c] | None => chs end,
-         match od with Some _ => freed | None => freed ++ [local_of (d_id d)] end,
-         st', cdec')
+  let '(rest, gone) := r in
+  match gone with
+  | [] => st
+  | _ =>
+      let still := existsb (from_addr addr) rest in
+      let '(rcv1, b1) := if still then (rcv, false) else dec_stat rcv in
+      fold_left (fun '(r0, a, b) e => if e_filtered e then (r0, a, b)
+                                     else let '(a', b') := dec_stat a in (r0, a', b || b'))
+                gone (rcv1, acc, bad || b1)
   end.
 
 Fixpoint iter_n {A} (n : nat) (f : A -> A) (x : A) : A :=
   match n with O => x | S k => iter_n k f (f x) end.
 
 Definition drop_op (t : table) (k : dropkind) (addr : N) (ctr : option N) : table * list change :=
+  let rs := map (fun nd => (nd, drop_dest (t_flags t) k addr (fst nd) (snd nd))) (t_dests t) in
+  let kept := flat_map (fun r => match fst (fst (snd r)) with
+                                 | Some d' => [(fst (fst r), d')] | None => [] end) rs in
+  let chs := flat_map (fun r => match snd (fst (snd r)) with Some c => [c] | None => [] end) rs in
+  let freed := flat_map (fun r => match fst (fst (snd r)) with
+                                  | Some _ => [] | None => [local_of (d_id (snd (fst r)))] end) rs in
+  (* (remaining entries, removed entries) per destination *)
+  let parts := map (fun r => (match fst (fst (snd r)) with Some d' => d_entries d' | None => [] end,
+                              snd (snd r))) rs in
   let '(rcv, acc) := stats_of t addr in
-  let '(kept, chs, freed, st, cdec) :=
-    drop_walk (t_flags t) k addr ctr (t_dests t) ([], [], [], (rcv, acc, false), 0) in
-  let '(rcv', acc', bad') := st in
+  let '(rcv', acc', bad') := fold_left (drop_account addr) parts (rcv, acc, false) in
+  let cdec := length (filter (fun pr => match snd pr with
+                                        | [] => false
+                                        | _ => negb (existsb (from_addr addr) (fst pr)) end) parts) in
   (* Table::drop forgets the peer's statistics for the family altogether *)
   let stats' :=
     match k with
@@ -490,13 +486,16 @@ Definition drop_op (t : table) (k : dropkind) (addr : N) (ctr : option N) : tabl
   let ctrs' :=
     match k, ctr with
     | DKAll, _ => t_ctrs t
-    | _, Some c => aset c (iter_n (N.to_nat cdec) wrap_dec (ctr_of t c)) (t_ctrs t)
+    | _, Some c => aset c (iter_n cdec wrap_dec (ctr_of t c)) (t_ctrs t)
     | _, None => t_ctrs t
     end in
   ({| t_deferring := t_deferring t; t_dests := kept;
       t_used := filter (fun x => negb (existsb (N.eqb x) freed)) (t_used t);
       t_stats := stats'; t_flags := t_flags t; t_ctrs := ctrs'; t_shard := t_shard t;
-      t_bad := t_bad t || match k with DKAll => false | _ => bad' end |}, chs).
+      t_bad := t_bad t || match k with
+                          | DKAll => false
+                          | _ => match alookup addr (t_stats t) with Some _ => bad' | None => false end
+                          end |}, chs).
 
 (* --------------------------------------------------- restale / restale_llgr *)
 
@@ -507,34 +506,34 @@ Definition mark (llgr : bool) (fl : flagmap) (tok : N) : flagmap :=
 Definition mark_dest (llgr : bool) (addr : N) (fl : flagmap) (d : dest) : flagmap :=
   fold_left (fun f e => if from_addr addr e then mark llgr f (s_tok (e_src e)) else f) (d_entries d) fl.
 
-(* the loop marks and sorts destination by destination; every source of
-   [addr] found anywhere in the family ends up marked *)
-Fixpoint restale_walk (llgr : bool) (addr : N) (ds : list (N * dest)) (fl : flagmap)
-         (acc : list (N * dest) * list change) : list (N * dest) * list change * flagmap :=
-  match ds with
-  | [] => (acc, fl)
-  | (net, d) :: r =>
-      let '(kept, chs) := acc in
-      if negb (existsb (from_addr addr) (d_entries d)) then
-        restale_walk llgr addr r fl (kept ++ [(net, d)], chs)
-      else
-        let old_best := best_lpid d in
-        let any_unf := existsb (fun e => from_addr addr e && negb (e_filtered e)) (d_entries d) in
-        let fl' := mark_dest llgr addr fl d in
-        let d' := with_entries d (isort (cmp_for fl' net) (d_entries d)) (d_next_pid d) in
-        let best_changed := negb (oNeqb old_best (best_lpid d')) in
-        let chs' :=
-          if best_changed || any_unf
-          then chs ++ [{| c_net := net; c_dest_id := d_id d; c_best_changed := best_changed;
-                          c_any_changed := any_unf; c_replaced := None; c_paths := elig_list d' |}]
-          else chs in
-        restale_walk llgr addr r fl' (kept ++ [(net, d')], chs')
-  end.
+(* The loop marks and re-sorts destination by destination.  Every entry of
+   [addr] in a destination has its source marked before that destination is
+   sorted, and sources of other peers are never marked, so (a source token
+   having one remote address) each destination is sorted under flags that agree
+   with the final flags on every source it holds: the model marks first and
+   sorts under the final flags. *)
+Definition restale_flags (llgr : bool) (addr : N) (ds : list (N * dest)) (fl : flagmap) : flagmap :=
+  fold_left (fun f nd => mark_dest llgr addr f (snd nd)) ds fl.
+
+Definition restale_dest (fl' : flagmap) (addr net : N) (d : dest) : dest * option change :=
+  if negb (existsb (from_addr addr) (d_entries d)) then (d, None)
+  else
+    let old_best := best_lpid d in
+    let any_unf := existsb (fun e => from_addr addr e && negb (e_filtered e)) (d_entries d) in
+    let d' := with_entries d (isort (cmp_for fl' net) (d_entries d)) (d_next_pid d) in
+    let best_changed := negb (oNeqb old_best (best_lpid d')) in
+    (d', if best_changed || any_unf
+         then Some {| c_net := net; c_dest_id := d_id d; c_best_changed := best_changed;
+                      c_any_changed := any_unf; c_replaced := None; c_paths := elig_list d' |}
+         else None).
 
 Definition restale_op (t : table) (llgr : bool) (addr : N) : table * list change :=
-  let '(kept, chs, fl') := restale_walk llgr addr (t_dests t) (t_flags t) ([], []) in
-  ({| t_deferring := t_deferring t; t_dests := kept; t_used := t_used t; t_stats := t_stats t;
-      t_flags := fl'; t_ctrs := t_ctrs t; t_shard := t_shard t; t_bad := t_bad t |}, chs).
+  let fl' := restale_flags llgr addr (t_dests t) (t_flags t) in
+  let rs := map (fun nd => (fst nd, restale_dest fl' addr (fst nd) (snd nd))) (t_dests t) in
+  ({| t_deferring := t_deferring t; t_dests := map (fun x => (fst x, fst (snd x))) rs;
+      t_used := t_used t; t_stats := t_stats t;
+      t_flags := fl'; t_ctrs := t_ctrs t; t_shard := t_shard t; t_bad := t_bad t |},
+   flat_map (fun x => match snd (snd x) with Some c => [c] | None => [] end) rs).
 
 (* ---------------------------------------------------- update_nexthop_validity *)
 
